@@ -401,10 +401,10 @@ class NameServer(object):
                 if isinstance(meta_all, str):
                     raise TypeError("metadata_all should not be a str, but another iterable (set, list, etc)")
                 meta_all and iter(meta_all)   # validate that metadata is iterable
+                meta_all = frozenset(meta_all)
                 result = self.storage.optimized_metadata_search(metadata_all=meta_all, return_metadata=return_metadata)
                 if result is not None:
                     return result
-                meta_all = frozenset(meta_all)
                 result = {}
                 for name, (uri, meta) in self.storage.everything(return_metadata=True).items():
                     if meta_all.issubset(meta):
